@@ -159,3 +159,30 @@ M("c08-missing-key-accepted", "C08", "V",
   (CT, "\t\t\t{{- if .Required }}\n\t\t\t\t} else {\n\t\t\t\t\treturn fmt.Errorf(\"'{{ .JSONTag }}' key is missing\")\n\t\t\t{{- end }}\n", ""))
 M("c18-revert-requestbody-alias", "C18", "V",
   (CT, "type {{ .Name }} = {{ call .GoTypeFn }}", "type {{ .Name }} {{ call .GoTypeFn }}"))
+
+# ------------------------------------------------------------------ behaviour-preserving renames of internal helpers
+def REN(name, prop, file, old, new):
+    # rename every occurrence of an identifier in one template file
+    import re
+    src = open("/repo/" + file).read()
+    n = len(re.findall(r"\b" + re.escape(old) + r"\b", src))
+    MUTANTS.append(dict(name=name, prop=prop, expect="S", edits=[(file, "__RENAME__" + old, new)], rename=True))
+
+REN("ren-splitPath-c03", "C03", RT, "splitPath", "cutSegment")
+REN("ren-splitPath-c14", "C14", RT, "splitPath", "cutSegment")
+REN("ren-authMiddlewareOr-c11", "C11", RT, "authMiddlewareOr", "anyOf")
+REN("ren-middlewares-c11", "C11", RT, "middlewares", "wrapAll")
+REN("ren-specFileBs-c13", "C13", RT, "specFileBs", "specBytes")
+REN("ren-specFileBs-c20", "C20", RT, "specFileBs", "specBytes")
+MUTANTS.append(dict(name="ren-comma-c06", prop="C06", expect="S", edits=[(CT, "__RENAME__comma", "sep"), (HT, "__RENAME__comma", "sep")]))
+REN("ren-writeProperty-c07", "C07", CT, "writeProperty", "emit")
+M("ren-commaWriter-c06", "C06", "S",
+  (CT, "cw := &commaWriter{w: out, comma: comma}", "cw := &sepWriter{w: out, comma: comma}"),
+  (HT, "type commaWriter struct {", "type sepWriter struct {"),
+  (HT, "func (c *commaWriter) Write(bs []byte) (int, error) {", "func (c *sepWriter) Write(bs []byte) (int, error) {"))
+M("preserve-comment-in-route-c16", "C16", "S",
+  (RT, "func (rt *API) route{{.Name}}(path, method string) (http.Handler, string, bool) {", "// route{{.Name}} resolves one segment.\nfunc (rt *API) route{{.Name}}(path, method string) (http.Handler, string, bool) {"))
+M("preserve-required-wording-c04", "C04", "S",
+  (HT, "return zero, fmt.Errorf(\"query parameter '{{.ParameterName}}': is required\")", "return zero, fmt.Errorf(\"missing required query parameter '{{.ParameterName}}'\")"))
+M("preserve-missing-key-wording-c08", "C08", "S",
+  (CT, "return fmt.Errorf(\"'{{ .JSONTag }}' key is missing\")", "return fmt.Errorf(\"required property '{{ .JSONTag }}' is absent\")"))
